@@ -94,6 +94,7 @@ func (c *ctx) numfkShift() {
 				for _, p := range perms(len(rest)) {
 					to := pick(rest, p)
 					var exp []string
+					addPos := -1
 					desc := fmt.Sprintf("numfk-shift: current [%s] desired [%s]", names(base), names(to))
 					if drop >= 0 {
 						exp = append(exp, fmt.Sprintf("t/-FK(%d)", drop))
@@ -106,13 +107,29 @@ func (c *ctx) numfkShift() {
 						for i, k := range to {
 							if k == extra {
 								exp = append(exp, fmt.Sprintf("t/+FK(%d)", i))
+								addPos = i
 								desc += fmt.Sprintf(", kw added as #%d", i)
 							}
 						}
 					}
 					kind := map[[2]bool]string{{true, false}: "drop", {false, true}: "add", {true, true}: "drop+add"}[[2]bool{drop >= 0, add == 1}]
 					c.w.Count("numfk-shift:" + kind)
-					c.one(c.id("numfk", 9), "numfk", desc, mk(base), mk(to), false, 0, exp, true)
+					// ordinals are positions, not names: the dropped key may be reported under its current
+					// ordinal or under any ordinal that no key of the desired table carries
+					alts := [][]string{exp}
+					if drop >= 0 {
+						for o := len(to); o < len(to)+len(base)+1; o++ {
+							if o == drop {
+								continue
+							}
+							a := []string{fmt.Sprintf("t/-FK(%d)", o)}
+							if addPos >= 0 {
+								a = append(a, fmt.Sprintf("t/+FK(%d)", addPos))
+							}
+							alts = append(alts, a)
+						}
+					}
+					c.oneAlt(c.id("numfk", 9), "numfk", desc, mk(base), mk(to), false, 0, alts, true)
 				}
 			}
 		}
